@@ -22,12 +22,12 @@ Proof.
   intros Hb Hb2 R0 R1. destruct (r 1 =? 0) eqn:Z1.
   - assert (E1 : r 1 = 0) by lia.
     exists 6%nat. eexists. split.
-    + cgo 0%nat. cgo 1%nat. rewrite R0, E1. change ((0 - 0 - 0) mod 65536 =? 0) with true.
+    + cgo 0%nat. cgo 1%nat. rewrite R0, E1. zeval.
       cgo 2%nat. cgo 8%nat. cgo 9%nat. cgo 10%nat. reflexivity.
     + cbn [cr cpc cmem]. cbn [Z.eqb Pos.eqb]. repeat split; try reflexivity.
       intros j Hj. repeat match goal with |- context [j =? ?k] => destruct (j =? k) eqn:?; try lia end; try reflexivity.
   - assert (N1 : (r 1 - r 0 - 0) mod 65536 =? 0 = false).
-    { rewrite R0. replace (r 1 - 0 - 0) with (r 1) by lia. rewrite Z.mod_small by lia. exact Z1. }
+    { rewrite R0, !Z.sub_0_r, Z.mod_small by lia. exact Z1. }
     exists 9%nat. eexists. split.
     + cgo 0%nat. cgo 1%nat. rewrite N1.
       cgo 2%nat. cgo 3%nat. cgo 4%nat. cgo 5%nat. cgo 6%nat. cgo 7%nat.
